@@ -26,6 +26,9 @@ pub fn blocks(thorough: bool) -> Vec<Block> {
         b.push(Block::new(Universe::new("U_abc3{a,b,c}", &["a", "b", "c"], 3, 4, false), vec![Cfg::new(0)], "{} (sets of <= 4 strings of length <= 3 over three letters: every union/factoring shape with a non-topological elimination order)"));
         b.push(Block::new(Universe::new("U_ab4{a,b}", &["a", "b"], 4, 5, false), vec![Cfg::new(0)], "{} (up to 5 strings: optional prefix and suffix around a core plus a string that reorders the elimination)"));
         b.push(Block::new(Universe::new("U_adv(A_cons)", A_CONS, 1, 4, false), vec![Cfg::new(0), Cfg::new(X), Cfg::new(G | E)], "{}, x, g+e"));
+        b.push(Block::new(u_full_minus(&["a", "b"], 6, 1), vec![Cfg::new(0)], "{}"));
+        b.push(Block::new(u_corpus("U_large", verif_seed(), 12_000, &["a", "b", "c"], (12, 19), (5, 7)), vec![Cfg::new(0)], "{} (tries of 60-130 states)"));
+        b.push(Block::new(u_corpus("U_large2", verif_seed() + 1, 6_000, &["a", "b"], (10, 24), (4, 9)), vec![Cfg::new(0)], "{}"));
         b.push(Block::new(Universe::new("U_adv(A_gcm)", A_GCM, 3, 1, false), neutral.clone(), d32));
         b.push(Block::new(Universe::new("U_adv(A_gcm)", A_GCM, 2, 2, false), vec![Cfg::new(0), Cfg::new(X | E)], "{}, x+e"));
     } else {
@@ -42,6 +45,9 @@ pub fn blocks(thorough: bool) -> Vec<Block> {
         b.push(Block::new(Universe::new("U_ab4{a,b}", &["a", "b"], 4, 5, false), vec![Cfg::new(0)], "{}"));
         b.push(Block::new(Universe::new("U_abc3{a,b,c}", &["a", "b", "c"], 3, 5, false), vec![Cfg::new(0)], "{}"));
         b.push(Block::new(Universe::new("U_ab4{a,b}", &["a", "b"], 4, 6, false), vec![Cfg::new(0)], "{}"));
+        b.push(Block::new(u_full_minus(&["a", "b"], 6, 2), vec![Cfg::new(0)], "{}"));
+        b.push(Block::new(u_corpus("U_large", verif_seed(), 200_000, &["a", "b", "c"], (12, 19), (5, 7)), vec![Cfg::new(0)], "{} (tries of 60-130 states)"));
+        b.push(Block::new(u_corpus("U_large2", verif_seed() + 1, 100_000, &["a", "b"], (10, 24), (4, 9)), vec![Cfg::new(0), Cfg::new(NA | NE)], "{}, na+ne"));
         b.push(Block::new(Universe::new("U_adv(A_gc)", A_GC, 2, 3, true), vec![Cfg::new(0)], "{}"));
         b.push(Block::new(Universe::new("U_adv(A_meta)", A_META, 3, 1, false), neutral.clone(), d32));
     }
